@@ -42,6 +42,8 @@ func optSets() []optSet {
 			out = append(out, optSet{u, d, o, []jsonv2.Options{o[0], o[1]}, refjson.Opts{AllowInvalidUTF8: u, AllowDupNames: d, NoToks: true}})
 		}
 	}
+	// no options at all (the four sets above spell every option out, also with the value false)
+	out = append(out, optSet{false, false, nil, nil, refjson.Opts{NoToks: true}})
 	return out
 }
 
@@ -347,6 +349,7 @@ func Run(r *evid.Run) {
 	byteSweep(r)
 	escapeAtoms(r)
 	padSweep(r)
+	abandoned(r)
 	nameGrids(r)
 	neighbours(r, lens)
 	deep(r)
